@@ -330,3 +330,47 @@ def _fs_event_filter(repo):
             + "\n".join("def notify%s : List String := %s" % (n, lst([v for v, _ in enums[n]]))
                         for n in ("EventKind", "ModifyKind", "RenameMode", "CreateKind", "RemoveKind", "DataChange", "MetadataKind")))
     return {"version": version, "accepted": [v for v, ok in table if ok], "rejected": [v for v, ok in table if not ok]}, lean
+
+
+# --------------------------------------------------------------------------------------------------
+# C20_WATCHER_DROP_COND: when does prepare_and_mark_reload throw the fs watcher away?  The condition
+# of the `if` that guards `fs_watcher.take()` is parsed as a boolean expression over the two fields
+# `persistent_fs_watcher` and `fast_reload` and evaluated on all four assignments.
+
+@item("C20_WATCHER_DROP_COND")
+def _watcher_drop_cond(repo):
+    src = re.sub(r"//[^\n]*", "", read(repo, SRC))
+    body = None
+    for name, b in _functions(src):
+        if name == "prepare_and_mark_reload":
+            body = b
+    if body is None:
+        raise KeyError("prepare_and_mark_reload")
+    takes = [m.start() for m in re.finditer(r"fs_watcher\s*\.\s*take\s*\(\)", body)]
+    if len(takes) != 1:
+        raise KeyError("expected exactly one fs_watcher.take() in prepare_and_mark_reload, found %d" % len(takes))
+    ifs = [m for m in re.finditer(r"\bif\b(.*?)\{", body[:takes[0]], re.S)]
+    if not ifs:
+        raise KeyError("fs_watcher.take() is not guarded by an if")
+    cond = ifs[-1].group(1).strip()
+    # nothing but the guarded take() between the `{` and the take
+    if body[ifs[-1].end():takes[0]].strip() not in ("locked_handle.", "") and not re.fullmatch(r"\s*\w+\s*\.\s*", body[ifs[-1].end():takes[0]]):
+        raise KeyError("unexpected statements between the if and fs_watcher.take()")
+    expr = re.sub(r"\b\w+\s*\.\s*persistent_fs_watcher\b", " P ", cond)
+    expr = re.sub(r"\b\w+\s*\.\s*fast_reload\b", " F ", expr)
+    if not re.fullmatch(r"[\sPF!&|()]*", expr):
+        raise KeyError("drop condition is not a boolean expression over persistent_fs_watcher / fast_reload: " + cond)
+    py = expr.replace("&&", " and ").replace("||", " or ").replace("!", " not ")
+    rows = []
+    for p in (False, True):
+        for f in (False, True):
+            try:
+                v = bool(eval(py, {"__builtins__": {}}, {"P": p, "F": f}))
+            except Exception as e:
+                raise KeyError("cannot evaluate drop condition %r: %s" % (cond, e))
+            rows.append(((p, f), v))
+    b = lambda x: "true" if x else "false"
+    lean = ("/-- (persistent_watch, fast_reload) ↦ does prepare_and_mark_reload drop the fs watcher -/\n"
+            "def watcherDropCond : List ((Bool × Bool) × Bool) := ["
+            + ", ".join(f"(({b(p)}, {b(f)}), {b(v)})" for (p, f), v in rows) + "]")
+    return {"cond": re.sub(r"\s+", " ", cond), "rows": rows}, lean
